@@ -93,6 +93,48 @@ def escape_letter_pushes(crate, reader_fn_path, letter, inline_extra=()):
     return outs.pop()
 
 
+def escape_text_pushes(crate, reader_fn_path, seq):
+    """Bytes the reader's escape function appends to the scratch buffer when the input after the backslash is
+    `seq` (followed by a closing quote): abstract evaluation with every local decoder / helper of read.rs looked
+    through, so the result does not depend on how the decoding is split into functions.
+    Returns ("push", bytes) | ("error", codes) | ("inexact", description)."""
+    f = crate.fn(reader_fn_path)
+    if f is None:
+        return "missing", None
+    inl = lambda a, b: b.crate == crate.name and b.file.endswith("parse/read.rs") and b.kind != "closure" and not (
+        b.impl_trait == "parse::read::Read")
+    S = sim.Sim([crate], hooks={"call": lex.seq_hook(list(seq) + [0x22])}, inline=inl, max_visits=10, max_paths=4000, max_depth=8)
+    outs = set()
+    try:
+        paths = S.run(f)
+    except sim.Limit:
+        return "inexact", "path limit"
+    for p in paths:
+        if p.end != "return":
+            outs.add(("other", str(p.end)))
+            continue
+        pushed = []
+        for ev in p.events:
+            if ev[0] != "call":
+                continue
+            if "std::vec::Vec::<T, A>::push" in ev[1]:
+                v = ev[6][1] if len(ev[6]) > 1 else None
+                pushed.append(v if isinstance(v, int) else None)
+            elif "std::vec::Vec::<T, A>::extend_from_slice" in ev[1]:
+                v = ev[6][1] if len(ev[6]) > 1 else None
+                pushed.extend(list(v.b) if isinstance(v, Bytes) else [None])
+        codes = lex.error_codes(p, crate)
+        if codes:
+            outs.add(("error", tuple(codes)))
+        elif None in pushed:
+            outs.add(("inexact", "a pushed byte is not constant"))
+        else:
+            outs.add(("push", bytes(pushed)))
+    if len(outs) != 1:
+        return "inexact", sorted(outs, key=repr)
+    return outs.pop()
+
+
 def hex_tables_inverse(crate, hex_digits_static):
     hd = crate.static_bytes(hex_digits_static)
     hx = crate.static_bytes("parse::read::HEX")
